@@ -13,7 +13,9 @@ torch.linalg float64 written here:
                                            CIQ: u = m_Z + K_zz^{1/2} e (symmetric square root, by eigendecomposition)
     q(f) = N(m_X + K_xz K_zz^-1 (m_u - m_Z),  K_xx - K_xz K_zz^-1 (K_zz - S_u) K_zz^-1 K_zx)
     KL   = 1/2 [tr(K_zz^-1 S_u) + (m_u - m_Z)' K_zz^-1 (m_u - m_Z) - M + logdet K_zz - logdet S_u]
-    delta distributions: S_u = 0, and "KL" is the documented MAP convention  -log N(m_u; m_Z, K_zz)
+    delta distributions: S_u = 0, and "KL" is the library's MAP convention -log p(point) in the strategy's OWN parameter space:
+                        -log N(m_u; m_Z, K_zz) for the unwhitened strategy, -log N(m'; 0, I) for whitened ones (a true KL would be invariant
+                        under the whitening bijection, a log density is not: the two differ by 1/2 logdet K_zz; not held against the code)
     grid interpolation: q(f) = N(W m_u, W S_u W'), W = Keys cubic-convolution weights computed here from the coordinates of
                         strategy.inducing_points (so the oracle does not depend on any index ordering convention); inputs are drawn where all
                         four cubic neighbours exist (the nearest-neighbour snapping at the grid boundary is not part of the property)
@@ -30,11 +32,14 @@ not come from the setting (UnwhitenedVariationalStrategy.prior_distribution: add
 .prior_distribution: hard-coded 1e-3) are NOT accounted for: the closed-form KL is against p(u) = N(m_Z, K_zz); the detail of such a violation
 says whether the value matches the closed form with K_zz + 1e-3 I.
 
-TOLERANCES: |got - want| <= 1e-6 * (1 + max|want|) element-wise everywhere, except
-    CIQ: 1e-5 (contour-integral quadrature + MINRES are iterative approximations; run at num_contour_quadrature(40..60), minres_tolerance(1e-12),
-         cg_tolerance / eval_cg_tolerance 1e-12: the remaining error on m <= 5 is ~1e-8 .. 1e-6)
+TOLERANCES: |got - want| <= 1e-6 * (1 + max|want|) element-wise everywhere (no looser tolerance is needed: CIQ is run at
+num_contour_quadrature(40; 60 thorough), minres_tolerance = cg_tolerance = eval_cg_tolerance = 1e-12, and the kernel lengthscales are drawn relative
+to the spacing of the inducing points so that cond(K_zz) <~ 1e3, where the quadrature error is ~1e-13).  One exception: the self-consistency check of
+the orthogonally decoupled KL inverts the (m_g + m_b)-point kernel matrix and uses 1e-5.
 Shapes: the mean must have the broadcast batch shape of (inducing points, parameters, kernel, data) + (n,), the covariance + (n, n); the KL must
-broadcast to that batch shape (the value is constant along data-only batch dimensions).
+broadcast to that batch shape (the value is constant along data-only batch dimensions); the KL of a multitask wrapper must have exactly the batch
+shape left after summing out the latent / task dimension.  batch-decoupled: the class docstring writes the mean as k' K^-1 m, the class is a
+subclass of the whitened strategy and the property says whitened strategies parameterise u = m_Z + L e: the whitened form is used.
 
 Skipped (and why): delta distributions with the grid / batch-decoupled strategies (the constructors / forward document that they refuse them);
 IndependentMultitaskVariationalStrategy on an un-batched base strategy (from_repeated_mvn: whether T copies sharing one q(u) count T KLs or one is
@@ -43,7 +48,6 @@ not documented); gradient claims (C15 / C19); NNVariationalStrategy (not listed 
 from __future__ import annotations
 
 import copy
-import itertools
 import math
 import time
 import warnings
@@ -427,7 +431,7 @@ def run(tier="quick", seed=0, only=None):
 
     def plain_case(sname, dname, tag, bz, bp, bk, bx, m, n, d, base):
         extra = ciq_ctx(40 if not thorough else 60) if sname == "ciq" else ()
-        tol = 1e-5 if sname == "ciq" else 1e-6
+        tol = 1e-6
         with ctx(*extra):
             model, Z, kind, hyp = build_plain(sname, dname, bz, bp, bk, m, d)
             strat = model.variational_strategy
@@ -533,7 +537,7 @@ def run(tier="quick", seed=0, only=None):
 
                     def one(wname=wname, dname=dname, tag=tag, bz=bz, bp=bp, bk=bk, bx=bx, m=m, n=n, d=d, base=base):
                         extra = ciq_ctx(40) if wname == "ciq" else ()
-                        tol = 1e-5 if wname == "ciq" else 1e-6
+                        tol = 1e-6
                         with ctx(*extra):
                             wm, Z, kind, hyp = build_plain(wname, dname, bz, bp, bk, m, d)
                             mp, Sp, pdesc = set_params(wm.variational_strategy._variational_distribution, dname, bp, m)
@@ -579,7 +583,7 @@ def run(tier="quick", seed=0, only=None):
 
                         def one(sname=sname, dname=dname, tag=tag, bz=bz, bp=bp, bk=bk, bx=bx, how=how, m=m, n=n, d=d, base=base):
                             extra = ciq_ctx(40) if sname == "ciq" else ()
-                            tol = 1e-5 if sname == "ciq" else 1e-6
+                            tol = 1e-6
                             with ctx(*extra):
                                 BK = bshape(bz, bp, bk)
                                 bpp = BK if sname == "unwhitened" else bp
@@ -676,14 +680,6 @@ def run(tier="quick", seed=0, only=None):
                             init_flag(strat)
                             X = rand(*bx, n, d)
                             B = bshape(b, bz, bx, bk[:-1] if len(bk) else ())
-
-                            class Sub:  # the kernel / mean of one element of the mean / variance batch dimension
-                                def __init__(self, idx):
-                                    self.idx = idx
-
-                                def _sel(self, t, k):
-                                    # t has batch shape broadcast(B, bk) + k trailing dims; select the mean/var entry when the kernel has that dim
-                                    return t
 
                             def sub_mats(idx, Zs):
                                 # evaluate with an explicit mean/var batch dimension of size 2 (or 1), then select
@@ -967,7 +963,7 @@ def run(tier="quick", seed=0, only=None):
     def lmc_case(bname, dname, tag, ldim, bz, bp, bk, bx, Q, Tn, base):
         m, n, d = 4, 5, 2
         extra = ciq_ctx(40) if bname == "ciq" else ()
-        tol = 1e-5 if bname == "ciq" else 1e-6
+        tol = 1e-6
         with ctx(*extra):
             scls, kind = STRATS[bname]
             Z = spread_points(bz, m, d)
@@ -1052,7 +1048,7 @@ def run(tier="quick", seed=0, only=None):
     def indep_case(bname, dname, tag, tdim, bz, bp, bk, bx, Tn, base):
         m, n, d = 4, 5, 2
         extra = ciq_ctx(40) if bname == "ciq" else ()
-        tol = 1e-5 if bname == "ciq" else 1e-6
+        tol = 1e-6
         with ctx(*extra):
             scls, kind = STRATS[bname]
             Z = spread_points(bz, m, d)
@@ -1117,8 +1113,11 @@ def run(tier="quick", seed=0, only=None):
     sections = {"distributions": section_distributions, "plain": section_plain, "same_qu": section_same_qu, "prior": section_prior,
                 "batch_decoupled": section_batch_decoupled, "orthogonal": section_orthogonal, "grid": section_grid,
                 "lmc": section_lmc, "independent": section_independent}
-    for name, fn in sections.items():
-        fn()
+    for rep in range(3 if thorough else 1):  # thorough: three independent draws of every case (same keys)
+        if rep:
+            gen.manual_seed(1000 + seed + 7919 * rep)
+        for name, fn in sections.items():
+            fn()
 
     skipped.extend([
         "delta distribution x grid-interpolation / batch-decoupled strategies: refused by design (documented RuntimeError / NotImplementedError)",
@@ -1134,11 +1133,11 @@ def run(tier="quick", seed=0, only=None):
              "x 4 Gaussian distributions; LMC (3 latents, 4 tasks, latent_dim -1 / -2) and independent multitask (3 tasks, task_dim -1 / -2) over "
              "standard / unwhitened / CIQ bases, with and without task_indices; evaluation mode (mean, variance, full covariance, KL) and training mode "
              "(mean, variance, KL after the forward pass); settings variational_cholesky_jitter(double)=1e-10, cholesky_jitter(double)=1e-12, CIQ: "
-             "num_contour_quadrature 40 (60 thorough), minres_tolerance = cg_tolerance = eval_cg_tolerance = 1e-12; one random draw of points / "
+             "num_contour_quadrature 40 (60 thorough), minres_tolerance = cg_tolerance = eval_cg_tolerance = 1e-12; one random draw (three in the thorough tier) of points / "
              "hyper-parameters / variational parameters per case, seeded" + ("; thorough: more sizes (m, n) in {(1,1),(3,4),(4,5),(5,6),(5,1),(2,6)} "
              "for every batch configuration, every distribution for every wrapper configuration" if thorough else ""))
     return {"name": "C14 variational q(f) / KL closed forms (float64)", "evaluations": ev, "distinct_nontrivial": len(seen),
             "bound": bound,
             "rule": "a case = family / strategy / distribution / batch configuration / sizes / mode / quantity; distinct by that key; tolerance 1e-6 "
-                    "relative (CIQ 1e-5), exceptions raised inside gpytorch on these inputs count as violations of the key",
+                    "relative, exceptions raised inside gpytorch on these inputs count as violations of the key",
             "samples": samples, "violations": violations, "skipped": skipped, "wall_s": round(time.time() - t0, 2)}
